@@ -1959,6 +1959,292 @@ theorem C01_read_write_read_items_partial {F} (ops : FloatOps F) (lex : LexCfg) 
     subst this
     rfl
 
+/-! ### read ∘ write for externally mapped instances -/
+
+/-- `STEPcomplex::WriteExtMapEntities` writes a part's attribute list as the parameters `paramsOf` - a `,` between them -/
+theorem paramsOf_part {F} (env : Env F) (cfg : RWCfg) (as : List AttrD) (vs : List (MVal F)) (h : StorableRec env as vs) :
+    writeAttrsPart env.ops cfg env.dict as vs ++ [41] = renderParams (paramsOf env.ops cfg env.dict as vs) := by
+  induction h with
+  | one a v h => simp [writeAttrsPart, paramsOf, renderParams, paramOf]
+  | cons a v as vs h ht ih =>
+    cases ht with
+    | one a' v' h' =>
+      simp only [writeAttrsPart, paramsOf, renderParams, paramOf, List.append_assoc] at ih ⊢
+      simp
+    | cons a' v' as' vs' h' ht' =>
+      simp only [writeAttrsPart, paramsOf, renderParams, paramOf, List.append_assoc] at ih ⊢
+      rw [ih]
+      simp
+
+theorem storableRec_filter {F} (env : Env F) (as : List AttrD) (vs : List (MVal F)) (h : StorableRec env as vs) :
+    as.filter (!·.redefining) = as := by
+  induction h with
+  | one a v h => simp [storable_red h]
+  | cons a v as vs h ht ih => simp [storable_red h, ih]
+
+theorem setPart_nomatch {F} (ps : List (MPart F)) (n : String) (v : List (MVal F)) (h : ∀ p ∈ ps, p.name ≠ n) :
+    setPart ps n v = ps := by
+  unfold setPart
+  conv => rhs; rw [← List.map_id ps]
+  apply List.map_congr_left
+  intro p hp
+  have : (p.name == n) = false := by simpa using h p hp
+  simp [this]
+
+/-- setting every part's values in turn, on the list of those parts with other values, gives the parts themselves -/
+theorem foldl_setPart_all {F} : ∀ (todo done defs : List (MPart F)),
+    ((done ++ todo).map (·.name)).Nodup → defs.map (·.name) = todo.map (·.name) →
+    todo.foldl (fun ps q => setPart ps q.name q.vals) (done ++ defs) = done ++ todo := by
+  intro todo
+  induction todo with
+  | nil =>
+    intro done defs _ hd
+    have : defs = [] := by simpa using hd
+    subst this
+    rfl
+  | cons q t ih =>
+    intro done defs hnd hd
+    cases defs with
+    | nil => simp at hd
+    | cons dq dt =>
+      simp only [List.map_cons, List.cons.injEq] at hd
+      obtain ⟨hdq, hdt⟩ := hd
+      rw [List.map_append, List.map_cons] at hnd
+      have hnd' := List.nodup_append.mp hnd
+      have hq_done : ∀ p ∈ done, p.name ≠ q.name := by
+        intro p hp heq
+        exact hnd'.2.2 _ (List.mem_map_of_mem (f := fun x : MPart F => x.name) hp) _ (by simp) heq
+      have hq_t : ∀ p ∈ dt, p.name ≠ q.name := by
+        intro p hp heq
+        have h1 := (List.nodup_cons.mp hnd'.2.1).1
+        apply h1
+        rw [← hdt, ← heq]
+        exact List.mem_map_of_mem (f := fun x : MPart F => x.name) hp
+      have hstep : setPart (done ++ dq :: dt) q.name q.vals = (done ++ [q]) ++ dt := by
+        have e1 : setPart (done ++ dq :: dt) q.name q.vals = setPart done q.name q.vals ++ setPart (dq :: dt) q.name q.vals := by
+          simp [setPart]
+        have e2 : setPart (dq :: dt) q.name q.vals = q :: setPart dt q.name q.vals := by
+          have : (dq.name == q.name) = true := by simp [hdq]
+          cases q with
+          | mk qn qv => simp only at hdq this ⊢; simp [setPart, this, hdq]
+        rw [e1, e2, setPart_nomatch done _ _ hq_done, setPart_nomatch dt _ _ hq_t]
+        simp
+      simp only [List.foldl_cons]
+      rw [hstep, ih (done ++ [q]) dt (by simpa [List.map_append] using hnd) hdt]
+      simp
+
+/-- a part of an externally mapped instance as it sits in memory: no own attributes, or values of the kinds of `Storable`
+    whose written text is balanced (`Bal` - what pass 1's `SkipSimpleRecord` lemma asks for; it holds for every text the
+    writer emits, but is proved here only where it is used, see the witness) -/
+def StorablePart {F} (env : Env F) (cfg : RWCfg) (p : MPart F) : Prop :=
+  KeywordName p.name ∧ ∃ ed, env.dict.entity? p.name = some ed ∧
+    ((ed.ownAttrs = [] ∧ p.vals = []) ∨
+     (StorableRec env ed.ownAttrs p.vals ∧
+      ∃ inner, renderParams (paramsOf env.ops cfg env.dict ed.ownAttrs p.vals) = inner ++ [41] ∧ Bal inner))
+
+/-- the part as `STEPcomplex::STEPwrite` emits it: `NAME(…)⏎` -/
+def cpartOf {F} (ops : FloatOps F) (cfg : RWCfg) (d : Dict) (p : MPart F) : CPart F :=
+  { n0 := (stringToBytes p.name).headD 0, ns := (stringToBytes p.name).tail, sA := [],
+    body := (match d.entity? p.name with
+             | some e => (match e.ownAttrs with | [] => [41] | _ :: _ => renderParams (paramsOf ops cfg d e.ownAttrs p.vals))
+             | none => [41]),
+    sB := [10], vals := p.vals }
+
+theorem cpartOf_spec {F} (env : Env F) (cfg : RWCfg) (hsa : cfg.stringNodeAppends = false) (p : MPart F)
+    (h : StorablePart env cfg p) :
+    (cpartOf env.ops cfg env.dict p).name = p.name ∧ (cpartOf env.ops cfg env.dict p).vals = p.vals ∧
+    CPartCovered env (cpartOf env.ops cfg env.dict p) ∧ CPartScan (cpartOf env.ops cfg env.dict p) ∧
+    (env.dict.entity? p.name).isSome = true ∧
+    stringToBytes p.name ++ [40] ++ writeAttrsPart env.ops cfg env.dict
+        (match env.dict.entity? p.name with | some e => e.ownAttrs.filter (!·.redefining) | none => []) p.vals ++ stringToBytes ")\n" =
+      (cpartOf env.ops cfg env.dict p).text := by
+  obtain ⟨⟨n0, ns, hnb, hn0, hns, hback⟩, ed, hent, hcase⟩ := h
+  have hup : upperBytes (n0 :: ns) = n0 :: ns := by
+    unfold upperBytes
+    conv => rhs; rw [← List.map_id (n0 :: ns)]
+    apply List.map_congr_left
+    intro c hc
+    rcases List.mem_cons.mp hc with rfl | hc
+    · exact upper_keeps (by simp [hn0])
+    · exact upper_keeps (List.all_eq_true.mp hns c hc)
+  have hent' : env.dict.entity? (bytesToString (upperBytes (n0 :: ns))) = some ed := by rw [hup, hback]; exact hent
+  have hal : isAlpha n0 = true := by simp [isAlpha, hn0]
+  have hkw : ns.all kwc = true := all_imp (fun c hc => upper_kwc hc) _ hns
+  have e3 : stringToBytes ")\n" = [41, 10] := by decide
+  rcases hcase with ⟨hown, hvals⟩ | ⟨hrec, inner, hin, hbal⟩
+  · have hc : cpartOf env.ops cfg env.dict p = { n0 := n0, ns := ns, sA := [], body := [] ++ [41], sB := [10], vals := [] } := by
+      simp [cpartOf, hent, hown, hnb, hvals]
+    rw [hc]
+    refine ⟨by show bytesToString (upperBytes (n0 :: ns)) = p.name; rw [hup, hback], hvals.symm,
+      CPartCovered.empty n0 ns [] [10] hal hkw (by decide) (by decide) ed hent' hown [] (Seps.blanks [] (by simp)),
+      ⟨hal, hkw, (by show ([] : List Byte).all isSpace = true; decide), (by show ([10] : List Byte).all isSpace = true; decide), [], rfl, Bal.nil⟩,
+      by simp [hent], ?_⟩
+    simp [hent, hown, hvals, writeAttrsPart, e3, hnb, CPart.text]
+  · obtain ⟨hp1, hpa, hpv, hpc, _, _⟩ := paramsOf_spec env cfg hsa env.dict rfl ed.ownAttrs p.vals hrec
+    have hne : ed.ownAttrs ≠ [] := by
+      intro h0
+      have : (paramsOf env.ops cfg env.dict ed.ownAttrs p.vals).map (·.a) = [] := by rw [hpa, h0]
+      exact hp1 (by simpa using this)
+    have hc : cpartOf env.ops cfg env.dict p =
+        { n0 := n0, ns := ns, sA := [], body := renderParams (paramsOf env.ops cfg env.dict ed.ownAttrs p.vals), sB := [10],
+          vals := (paramsOf env.ops cfg env.dict ed.ownAttrs p.vals).map (·.v) } := by
+      simp only [cpartOf, hent, hnb, List.headD_cons, List.tail_cons, hpv]
+      cases ho : ed.ownAttrs with
+      | nil => exact absurd ho hne
+      | cons a0 at0 => rfl
+    rw [hc]
+    refine ⟨by show bytesToString (upperBytes (n0 :: ns)) = p.name; rw [hup, hback], hpv,
+      CPartCovered.params n0 ns [] [10] hal hkw (by decide) (by decide) ed hent' _ hp1 hpa.symm hpc,
+      ⟨hal, hkw, (by show ([] : List Byte).all isSpace = true; decide), (by show ([10] : List Byte).all isSpace = true; decide), inner, hin, hbal⟩,
+      by simp [hent], ?_⟩
+    have hw := paramsOf_part env cfg ed.ownAttrs p.vals hrec
+    simp only [hent, storableRec_filter env _ _ hrec, e3, hnb, CPart.text]
+    rw [← hw]
+    simp
+
+/-- an externally mapped instance as it sits in memory: parts sorted by name as `CreateSubSuperInstance` leaves them, a legal
+    combination, every part storable -/
+def StorableCInst {F} (env : Env F) (cfg : RWCfg) (i : MInst F) : Prop :=
+  0 ≤ i.id ∧ i.id ≤ IStream.intMax ∧ i.complex = true ∧ i.parts ≠ [] ∧ (∀ p ∈ i.parts, StorablePart env cfg p) ∧
+  (i.parts.map (·.name)).Nodup ∧ sortNames (i.parts.map (·.name)) = i.parts.map (·.name) ∧
+  env.dict.complexSets.contains (i.parts.map (·.name)) = true
+
+/-- the record `STEPcomplex::STEPwrite` emits for it: `#id=(⏎PART(…)⏎…);` -/
+def crecOf {F} (ops : FloatOps F) (cfg : RWCfg) (d : Dict) (i : MInst F) : CRec F :=
+  { ds := showInt i.id, s1 := [], s2 := [], parts := i.parts.map (cpartOf ops cfg d), s4 := [] }
+
+/-- **read ∘ write for an externally mapped instance** (record level; the parts of the kinds of `StorablePart`): the text
+    `STEPcomplex::STEPwrite` emits for the instance is a record both passes read back to the instance itself - it satisfies
+    the hypotheses of `C01_file_write_read_items_partial`, so such instances mix with the others in one manager. -/
+theorem complexInst_item {F} (ops : FloatOps F) (lex : LexCfg) (cfg : RWCfg) (d : Dict) (strict : Bool)
+    (hskip : cfg.skipInstanceSkipsComments = true) (hcri : lex.criSkipsComments = true) (hagg : cfg.aggrSkipsComments = true)
+    (hmc : cfg.missingCheckEverySecond = false) (hrep : cfg.complexReportsError = true)
+    (hsa : cfg.stringNodeAppends = false) (lk : Lookup) (i : MInst F)
+    (h : StorableCInst { ops := ops, lex := lex, cfg := cfg, dict := d, lookup := lk } cfg i) :
+    let x := cxItemS d (crecOf ops cfg d i) [10] [10]
+    x.id = i.id ∧ keyOf x.mkI = keyOf i ∧ x.sev = .null ∧ x.out = { i with state := .complete } ∧
+    (∀ K, 35 :: (x.body ++ (x.g ++ K)) = writeInst ops cfg d i ++ K) ∧
+    Item1OK cfg d x ∧ Item2OK ops lex cfg d strict lk x := by
+  intro x
+  let env : Env F := { ops := ops, lex := lex, cfg := cfg, dict := d, lookup := lk }
+  obtain ⟨h0, hhi, hcx, hpne, hparts, hnd, hsorted, hlegal⟩ := h
+  obtain ⟨ds, hds, hne, hdig, hval⟩ := showInt_nonneg i.id h0
+  have hspec : ∀ p ∈ i.parts, _ := fun p hp => cpartOf_spec env cfg hsa p (hparts p hp)
+  have hnames : (crecOf ops cfg d i).parts.map (·.name) = i.parts.map (·.name) := by
+    simp only [crecOf, List.map_map]
+    apply List.map_congr_left
+    intro p hp
+    exact (hspec p hp).1
+  have hknownN : ∀ n ∈ i.parts.map (·.name), (d.entity? n).isSome = true := by
+    intro n hn
+    obtain ⟨p, hp, rfl⟩ := List.mem_map.mp hn
+    exact (hspec p hp).2.2.2.2.1
+  have hfilter : ((crecOf ops cfg d i).parts.map (·.name)).filter (fun n => (d.entity? n).isSome) = i.parts.map (·.name) := by
+    rw [hnames]
+    exact List.filter_eq_self.mpr hknownN
+  have hidr : (crecOf ops cfg d i).id = i.id := by show ((digitsVal (showInt i.id) 0 : Nat) : Int) = _; rw [hds]; exact hval
+  have sepsNil : Seps ([] : List Byte) := Seps.blanks [] (by simp)
+  have hl : (crecOf ops cfg d i).Lex := by
+    refine ⟨by show showInt i.id ≠ []; rw [hds]; exact hne, by show (showInt i.id).all isDigit = true; rw [hds]; exact hdig,
+      by rw [hidr]; exact hhi, sepsNil, sepsNil, sepsNil, by simpa [crecOf] using hpne, ?_⟩
+    intro c hc
+    simp only [crecOf, List.mem_map] at hc
+    obtain ⟨p, hp, rfl⟩ := hc
+    exact (hspec p hp).2.2.2.1
+  have hC := C01_complex_record_blanks_item ops lex cfg d strict hskip hcri hagg hmc hrep lk (crecOf ops cfg d i) [10] [10] hl
+    (by decide) (Seps.blanks [10] (by decide)) (by rw [hfilter, hsorted]; exact hlegal)
+    (by
+      intro c hc
+      simp only [crecOf, List.mem_map] at hc
+      obtain ⟨p, hp, rfl⟩ := hc
+      rw [(hspec p hp).1]; exact (hspec p hp).2.2.2.2.1)
+    (by
+      intro c hc
+      simp only [crecOf, List.mem_map] at hc
+      obtain ⟨p, hp, rfl⟩ := hc
+      exact (hspec p hp).2.2.1)
+  have hmkparts : (mkCInst d (crecOf ops cfg d i) : MInst F).parts =
+      (i.parts.map (·.name)).map (fun n => ({ name := n, vals := match d.entity? n with | some e => defaults e.ownAttrs | none => [] } : MPart F)) := by
+    simp only [mkCInst]
+    rw [hfilter, hsorted]
+    rfl
+  refine ⟨hidr, ?_, rfl, ?_, ?_, hC.1, hC.2⟩
+  · show keyOf (mkCInst d (crecOf ops cfg d i)) = keyOf i
+    simp only [keyOf, hmkparts, List.map_map, Function.comp_def, List.map_id']
+    show (((mkCInst d (crecOf ops cfg d i) : MInst F).id), _) = _
+    rw [show (mkCInst d (crecOf ops cfg d i) : MInst F).id = i.id from hidr]
+  · show finCInst d (crecOf ops cfg d i) = { i with state := .complete }
+    have hfold : (crecOf ops cfg d i).parts.foldl (fun ps c => setPart ps c.name c.vals) (mkCInst d (crecOf ops cfg d i) : MInst F).parts = i.parts := by
+      have e1 : (crecOf ops cfg d i).parts.foldl (fun ps c => setPart ps c.name c.vals) (mkCInst d (crecOf ops cfg d i) : MInst F).parts =
+          i.parts.foldl (fun ps q => setPart ps q.name q.vals) (mkCInst d (crecOf ops cfg d i) : MInst F).parts := by
+        have hext : ∀ (qs : List (MPart F)) (ps0 : List (MPart F)), (∀ q ∈ qs, q ∈ i.parts) →
+            qs.foldl (fun ps q => setPart ps (cpartOf ops cfg d q).name (cpartOf ops cfg d q).vals) ps0 =
+              qs.foldl (fun ps q => setPart ps q.name q.vals) ps0 := by
+          intro qs
+          induction qs with
+          | nil => intro _ _; rfl
+          | cons q t ih =>
+            intro ps0 hsub
+            simp only [List.foldl_cons]
+            rw [(hspec q (hsub q (by simp))).1, (hspec q (hsub q (by simp))).2.1]
+            exact ih _ (fun y hy => hsub y (by simp [hy]))
+        simp only [crecOf, List.foldl_map]
+        exact hext i.parts _ (fun _ h => h)
+      rw [e1, hmkparts]
+      have := foldl_setPart_all i.parts [] ((i.parts.map (·.name)).map (fun n => ({ name := n, vals := match d.entity? n with | some e => defaults e.ownAttrs | none => [] } : MPart F)))
+        (by simpa using hnd) (by simp [List.map_map, Function.comp_def])
+      simpa using this
+    cases i with
+    | mk id parts complex state =>
+      simp only at hcx hidr hfold
+      subst hcx
+      simp only [finCInst, hfold]
+      simp [mkCInst, CRec.id] at hidr ⊢
+      exact hidr
+  · intro K
+    show 35 :: ((crecOf ops cfg d i).textS [10] [] ++ ([10] ++ K)) = _
+    rw [crec_textS_append]
+    have hrender : ∀ (ps : List (MPart F)), (∀ p ∈ ps, p ∈ i.parts) →
+        ps.flatMap (fun p => stringToBytes p.name ++ [40] ++ writeAttrsPart ops cfg d
+          (match d.entity? p.name with | some e => e.ownAttrs.filter (!·.redefining) | none => []) p.vals ++ stringToBytes ")\n") =
+        renderCParts (ps.map (cpartOf ops cfg d)) := by
+      intro ps
+      induction ps with
+      | nil => intro _; rfl
+      | cons p t ih =>
+        intro hsub
+        simp only [List.flatMap_cons, List.map_cons, renderCParts]
+        rw [ih (fun q hq => hsub q (by simp [hq])), (hspec p (hsub p (by simp))).2.2.2.2.2]
+    have e1 : stringToBytes "=(\n" = [61, 40, 10] := by decide
+    have e2 : stringToBytes ");\n" = [41, 59, 10] := by decide
+    simp only [writeInst, hcx, if_true, e1, e2]
+    generalize hFL : List.flatMap _ i.parts = FL
+    have hFL' : FL = renderCParts (i.parts.map (cpartOf ops cfg d)) := by
+      rw [← hFL]; exact hrender i.parts (fun _ h => h)
+    rw [hFL']
+    simp [crecOf, CRec.textS, List.append_assoc]
+
+/-- **read ∘ write for externally mapped instances** (`_partial`; `complexInst_item` exported): for every instance of
+    `StorableCInst` - parts sorted by name in a legal combination, each part without own attributes or with values of the
+    kinds of `Storable` whose written text is balanced - the text `STEPcomplex::STEPwrite` emits,
+    `#id=(⏎PART(…)⏎PART(…)⏎);⏎`, is a record with the instance's id and part names that pass 1 creates
+    (`CreateSubSuperInstance`) and pass 2 reads back (`STEPcomplex::STEPread`) to the instance itself, severity NULL.  By
+    `C01_file_write_read_items_partial` such instances stand in one manager with internally mapped ones
+    (`C01_complex_instance_write_read_witness`), and the second write reproduces the bytes. -/
+theorem C01_complex_instance_write_read_partial {F} (ops : FloatOps F) (lex : LexCfg) (cfg : RWCfg) (d : Dict) (strict : Bool)
+    (hskip : cfg.skipInstanceSkipsComments = true) (hcri : lex.criSkipsComments = true) (hagg : cfg.aggrSkipsComments = true)
+    (hmc : cfg.missingCheckEverySecond = false) (hrep : cfg.complexReportsError = true)
+    (hsa : cfg.stringNodeAppends = false) (lk : Lookup) (i : MInst F)
+    (h : StorableCInst { ops := ops, lex := lex, cfg := cfg, dict := d, lookup := lk } cfg i) :
+    (cxItemS d (crecOf ops cfg d i) [10] [10]).id = i.id ∧
+    (cxItemS d (crecOf ops cfg d i) [10] [10]).out = { i with state := .complete } ∧
+    (∀ K, 35 :: ((cxItemS d (crecOf ops cfg d i) [10] [10]).body ++ ((cxItemS d (crecOf ops cfg d i) [10] [10]).g ++ K)) =
+      writeInst ops cfg d i ++ K) ∧
+    Item1OK cfg d (cxItemS d (crecOf ops cfg d i) [10] [10]) ∧
+    Item2OK ops lex cfg d strict lk (cxItemS d (crecOf ops cfg d i) [10] [10]) := by
+  obtain ⟨h1, _, _, h4, h5, h6, h7⟩ := complexInst_item ops lex cfg d strict hskip hcri hagg hmc hrep hsa lk i h
+  exact ⟨h1, h4, h5, h6, h7⟩
+
 /-! ### the two halves composed, and their hypotheses on a concrete file -/
 
 /-- **the token the writer emits for a stored value denotes that value** (`storable_covered`, exported): for every stored
@@ -2368,6 +2654,55 @@ theorem C01_read_write_read_items_witness :
     (by intro x hx; simp only [weItems, weMgr, List.map_cons, List.map_nil, List.mem_cons, List.not_mem_nil, or_false] at hx
         rcases hx with rfl | rfl; exact (hE _ .complete).2.2.2.2.2.2; exact (hA _ .complete).2.2.2.2.2.2)
   exact ⟨res, res2, h1, h2, h3, h4, h5, h6⟩
+
+/-! #### … and with an externally mapped instance: the manager `{#1 : A(5), #2 : (A(7) C(#1))}` -/
+def wcInstA : MInst Nat := { id := 1, parts := [{ name := "A", vals := [.one (.atom (.int 5))] }] }
+def wcInstC : MInst Nat :=
+  { id := 2, parts := [{ name := "A", vals := [.one (.atom (.int 7))] }, { name := "C", vals := [.one (.atom (.ref 1))] }], complex := true }
+def wcMgr : Mgr Nat := { insts := [wcInstA, wcInstC] }
+def wcIt (i : MInst Nat) : Item Nat :=
+  if i.id == 1 then (AnyRec.simple (recOf dblOps Generated.rwCfg mDict i)).item mDict
+  else cxItemS mDict (crecOf dblOps Generated.rwCfg mDict i) [10] [10]
+def wcEnv : Env Nat :=
+  { ops := dblOps, lex := Generated.rwLexCfg, cfg := Generated.rwCfg, dict := mDict, lookup := Mgr.lookup mDict wcMgr }
+
+/-- what `STEPfile::WriteData` emits for it, `#1=A(5);⏎#2=(⏎A(7)⏎C(#1)⏎);⏎`, is read back to the same two instances - the
+    externally mapped one with both parts and the reference into the first - and written again to the same bytes -/
+theorem C01_complex_instance_write_read_witness :
+    ∃ res, readDataSection dblOps Generated.rwLexCfg Generated.rwCfg mDict false false
+        (10 :: (wcMgr.insts.flatMap (writeInst dblOps Generated.rwCfg mDict) ++ (stringToBytes "ENDSEC;\n" ++ (endIso ++ [59, 10])))) = .ok res ∧
+      res.sev = .null ∧ res.mgr.insts = wcMgr.insts.map (fun i => { i with state := .complete }) ∧
+      res.mgr.insts.flatMap (writeInst dblOps Generated.rwCfg mDict) = wcMgr.insts.flatMap (writeInst dblOps Generated.rwCfg mDict) := by
+  have kwA : KeywordName "A" := ⟨65, [], by decide, by decide, by decide, by decide⟩
+  have kwC : KeywordName "C" := ⟨67, [], by decide, by decide, by decide, by decide⟩
+  have hA := storableInst_item dblOps Generated.rwLexCfg Generated.rwCfg mDict false (by decide) (by decide) (by decide) (by decide)
+    (by decide) (by decide) (Mgr.lookup mDict wcMgr) wcInstA
+    ⟨by decide, by decide, rfl, { name := "A", vals := [.one (.atom (.int 5))] }, { name := "A", attrs := [wAttrI], ancestors := ["A"] },
+      rfl, by decide, rfl, kwA, StorableRec.one wAttrI _ (Storable.int wAttrI rfl rfl rfl 5 (by decide) (by decide))⟩
+  have hC := complexInst_item dblOps Generated.rwLexCfg Generated.rwCfg mDict false (by decide) (by decide) (by decide) (by decide)
+    (by decide) (by decide) (Mgr.lookup mDict wcMgr) wcInstC
+    ⟨by decide, by decide, rfl, List.cons_ne_nil _ _, (by
+        intro p hp
+        simp only [wcInstC, List.mem_cons, List.not_mem_nil, or_false] at hp
+        rcases hp with rfl | rfl
+        · exact ⟨kwA, { name := "A", attrs := [wAttrI], ancestors := ["A"] }, by decide, Or.inr
+            ⟨StorableRec.one wAttrI _ (Storable.int wAttrI rfl rfl rfl 7 (by decide) (by decide)),
+             [55], by decide, Bal.plain 55 [] (by decide) (by decide) (by decide) Bal.nil⟩⟩
+        · exact ⟨kwC, { name := "C", attrs := [wAttrR], ancestors := ["C"] }, by decide, Or.inr
+            ⟨StorableRec.one wAttrR _ (Storable.ref (env := wcEnv) wAttrR "A" rfl rfl rfl 1 (by decide) (by decide) (by decide)),
+             [35, 49], by decide,
+             Bal.plain 35 _ (by decide) (by decide) (by decide) (Bal.plain 49 [] (by decide) (by decide) (by decide) Bal.nil)⟩⟩),
+      by decide, by decide, by decide⟩
+  obtain ⟨res, hr, hs, _, hi, hw⟩ := C01_file_write_read_items_partial dblOps Generated.rwLexCfg Generated.rwCfg mDict false (by decide)
+    wcMgr (by decide) wcIt
+    (by intro i hi; simp only [wcMgr, List.mem_cons, List.not_mem_nil, or_false] at hi; rcases hi with rfl | rfl; exact hA.1; exact hC.1)
+    (by intro i hi; simp only [wcMgr, List.mem_cons, List.not_mem_nil, or_false] at hi; rcases hi with rfl | rfl; exact hA.2.1; exact hC.2.1)
+    (by intro i hi; simp only [wcMgr, List.mem_cons, List.not_mem_nil, or_false] at hi; rcases hi with rfl | rfl; exact hA.2.2.1; exact hC.2.2.1)
+    (by intro i hi; simp only [wcMgr, List.mem_cons, List.not_mem_nil, or_false] at hi; rcases hi with rfl | rfl; exact hA.2.2.2.1; exact hC.2.2.2.1)
+    (by intro i hi; simp only [wcMgr, List.mem_cons, List.not_mem_nil, or_false] at hi; rcases hi with rfl | rfl; exact hA.2.2.2.2.1; exact hC.2.2.2.2.1)
+    (by intro i hi; simp only [wcMgr, List.mem_cons, List.not_mem_nil, or_false] at hi; rcases hi with rfl | rfl; exact hA.2.2.2.2.2.1; exact hC.2.2.2.2.2.1)
+    (by intro i hi; simp only [wcMgr, List.mem_cons, List.not_mem_nil, or_false] at hi; rcases hi with rfl | rfl; exact hA.2.2.2.2.2.2; exact hC.2.2.2.2.2.2)
+  exact ⟨res, hr, hs, hi, hw⟩
 
 def exDict : Dict :=
   { entities := [{ name := "A", attrs := [{ name := "i", ty := .one .integer, optional := false },
